@@ -179,8 +179,12 @@ func (in *c16Inst) close() {
 	os.RemoveAll(in.home)
 }
 
+// c16Scratch: where the per-instance home directories (wasm cache) live; removed again by close().
 func c16Scratch() string {
 	d := "/var/tmp/C16"
+	if r := os.Getenv("VERIF_ROOT"); r != "" {
+		d = r + "/.cache/c16-homes"
+	}
 	if err := os.MkdirAll(d, 0o755); err != nil {
 		panic(err)
 	}
